@@ -103,6 +103,43 @@ pub fn record(cases: &str, table: &str, seed: u64, n: usize, out: &str) {
             t.emit(Value::Object(ev));
         }
     });
+    // degenerate but valid continuous uniform laws (lower = upper): every draw is the single support point; reached by the
+    // constructor, by a setter and by the bulk update
+    for (k, cpt) in [0.0f64, 2.5, -1000.0].iter().enumerate() {
+        for via in ["fresh", "setter", "update"] {
+            let c0 = *cpt;
+            let via2 = via.to_string();
+            let nn = 1000usize;
+            let res = run_with_timeout(move || {
+                let d = match via2.as_str() {
+                    "fresh" => Uniform::new(c0, c0),
+                    "setter" => { let mut u = Uniform::new(c0 - 3.0, c0); u.set_lower(c0); u }
+                    _ => { let mut u = Uniform::new(c0 + 1.0, c0 + 2.0); u.update(&[c0, c0]); u }
+                };
+                alea::set_seed(77 + k as u64);
+                let xs = d.sample_n(nn);
+                let one = d.sample();
+                let m = d.sample_matrix(2, 3);
+                (xs.len() == nn, xs.iter().all(|x| *x == c0) && one == c0, m.nrows == 2 && m.ncols == 3 && m.data.iter().all(|x| *x == c0),
+                 vec![xs.iter().filter(|x| **x <= c0 - 1.0).count() as i64, xs.iter().filter(|x| **x <= c0).count() as i64])
+            }, limit);
+            let mut ev = json!({"kind": "Uniform", "p": [c0, c0], "regime": format!("degenerate equal bounds via-{}", via), "n": nn, "seed": 77 + k}).as_object().unwrap().clone();
+            match res {
+                Ok(Some((count_ok, support_ok, shape_ok, cnt))) => {
+                    ev.insert("out".into(), json!("ok")); ev.insert("count_ok".into(), json!(count_ok)); ev.insert("support_ok".into(), json!(support_ok));
+                    ev.insert("integer_ok".into(), json!(true)); ev.insert("repro_ok".into(), json!(true)); ev.insert("shape_ok".into(), json!(shape_ok));
+                    ev.insert("cnt".into(), json!(cnt)); ev.insert("nF".into(), json!([0, nn]));
+                }
+                other => {
+                    ev.insert("out".into(), json!(if other.is_err() { "timeout" } else { "panic" }));
+                    for k in ["count_ok", "support_ok", "integer_ok", "repro_ok", "shape_ok"] { ev.insert(k.into(), json!(false)); }
+                    ev.insert("cnt".into(), json!([])); ev.insert("nF".into(), json!([]));
+                }
+            }
+            t.emit(Value::Object(ev));
+        }
+    }
+
     t.finish();
 }
 
